@@ -26,7 +26,9 @@ import (
 
 type leakLine struct {
 	Case    int      `json:"case"`
-	Fault   string   `json:"fault"` // none | patch | sig | source
+	Fault   string   `json:"fault"` // none | patch | sig | source | transient (patch writer fails one call, then works)
+	Target  string   `json:"target"` // transient: type of the message whose first Write fails
+	Rebuilds string  `json:"rebuilds"` // transient, WritePatch returned nil: "yes" | "no: <why>" - does the patch rebuild the new build? ("" otherwise)
 	At      int64    `json:"at"`    // byte at which the fault fires
 	Size    int64    `json:"size"`  // total size of the new build
 	Fired   bool     `json:"fired"`
@@ -52,6 +54,23 @@ func (f *failingWriter) Write(p []byte) (int, error) {
 		f.left = 0
 		*f.fired = true
 		return n, errInjected
+	}
+	f.left -= int64(len(p))
+	return f.w.Write(p)
+}
+
+// transientWriter fails exactly ONE Write call (writing nothing of it) once `left` bytes went through, and works
+// again afterwards: a writer whose errors are not sticky (the io.Writer contract does not promise they are).
+type transientWriter struct {
+	w     io.Writer
+	left  int64
+	fired *bool
+}
+
+func (f *transientWriter) Write(p []byte) (int, error) {
+	if !*f.fired && int64(len(p)) > f.left {
+		*f.fired = true
+		return 0, errInjected
 	}
 	f.left -= int64(len(p))
 	return f.w.Write(p)
@@ -154,7 +173,7 @@ func cmdDiffLeak(args []string) error {
 			return err
 		}
 		algo := []string{"NONE", "GZIP", "BROTLI"}[k%3]
-		line := leakLine{Case: k, Fault: []string{"none", "patch", "sig", "source"}[k%4], Size: sourceContainer.Size, Algo: algo, Where: []string{}}
+		line := leakLine{Case: k, Fault: []string{"none", "patch", "sig", "source", "transient"}[k%5], Size: sourceContainer.Size, Algo: algo, Where: []string{}}
 		var pool lake.Pool = fspool.New(sourceContainer, newDir)
 		var patch, sig bytes.Buffer
 		var pw, sw io.Writer = &patch, &sig
@@ -166,6 +185,29 @@ func cmdDiffLeak(args []string) error {
 		case "sig":
 			line.At = rng.Int63n(sourceContainer.Size/2048 + 64)
 			sw = &failingWriter{w: &sig, left: line.At, fired: &line.Fired}
+		case "transient":
+			// aimed at the first Write of a chosen message of the uncompressed patch (positions from a clean run)
+			algo, line.Algo = "NONE", "NONE"
+			var cp, cs bytes.Buffer
+			clean := &pwr.DiffContext{Compression: compressionOf(algo, 1), Consumer: nullConsumer(), SourceContainer: sourceContainer, Pool: pool,
+				TargetContainer: targetContainer, TargetSignature: targetSig}
+			if err := clean.WritePatch(context.Background(), &cp, &cs); err != nil {
+				return err
+			}
+			d := decodePatch(cp.Bytes())
+			if d.Err != "" {
+				return fmt.Errorf("decode: %s", d.Err)
+			}
+			var ops []pmsg
+			for _, m := range d.Msgs {
+				if m.K == "OP" && m.Ty != "END" {
+					ops = append(ops, m)
+				}
+			}
+			m := ops[rng.Intn(len(ops))]
+			line.At = int64(d.HeaderEnd) + m.Start
+			line.Target = m.Ty
+			pw = &transientWriter{w: &patch, left: line.At, fired: &line.Fired}
 		case "source":
 			line.At = rng.Int63n(sourceContainer.Size + 1)
 			pool = &failingPool{Pool: pool, left: line.At, fired: &line.Fired}
@@ -181,6 +223,24 @@ func cmdDiffLeak(args []string) error {
 			}
 		}
 		line.ElapsMs = time.Since(t0).Milliseconds()
+		if line.Fault == "transient" && line.Err == "" {
+			outDir := root + "/out"
+			res := realApplyPatch(patch.Bytes(), applyOpts{Bowl: "fresh", OldDir: oldDir, OutDir: outDir})
+			if res.Err != nil {
+				line.Rebuilds = "no: apply fails: " + res.Err.Error()
+			} else {
+				want, _ := snapshot(newDir)
+				got, _ := snapshot(outDir)
+				if d := diffSnap(want, got); len(d) > 0 {
+					line.Rebuilds = fmt.Sprintf("no: %d entries differ, e.g. %s", len(d), d[0])
+				} else {
+					line.Rebuilds = "yes"
+				}
+			}
+			if len(line.Rebuilds) > 200 {
+				line.Rebuilds = line.Rebuilds[:200]
+			}
+		}
 		// grace period: tasks that are merely slow get 400 ms to return
 		for i := 0; i < 8; i++ {
 			time.Sleep(50 * time.Millisecond)
